@@ -73,7 +73,7 @@ EditVerify ==
 NCScal == Len(objs[1].cms) + 2
 BadCommit ==
   /\ pc = "sign" /\ CM = 1
-  /\ \/ Step(Tamper(1, {101}, 0))
+  /\ \/ \E f \in {101, 201} : Step(Tamper(1, {f}, 0))
      \/ \E j \in 1 .. NCScal : Step(Tamper(1, {j}, 0))
      \/ \E d \in {-1, 1} : Step(Tamper(1, {}, d))
   /\ pc' = "badcommit"
@@ -139,7 +139,7 @@ EditProof ==
 NPScal(p) == 4 + (Len(p.msgs) + 1 + Len(p.cms)) - Cardinality(p.D)
 TamperProof == /\ pc = "proof" /\ last.op = "BlindProofGen"
                /\ LET p == objs[PH] IN
-                  \/ \E f \in {101, 102, 103} : Step(Tamper(PH, {f}, 0))
+                  \/ \E f \in {101, 102, 103, 202} : Step(Tamper(PH, {f}, 0))
                   \/ \E j \in 1 .. NPScal(p) : Step(Tamper(PH, {j}, 0))
                   \/ \E d \in {-1, 1} : Step(Tamper(PH, {}, d))
                /\ pc' = "tproof"
